@@ -13,6 +13,7 @@ import (
 	"math/rand"
 	"os"
 	"sort"
+	"strconv"
 	"strings"
 	"time"
 
@@ -55,6 +56,49 @@ type tableSpec struct {
 	M             int       `json:"m,omitempty"`
 	SrcExtent     []float64 `json:"src_extent,omitempty"`
 	SrcExtentMode string    `json:"src_extent_mode,omitempty"`
+	// DEFAULT clauses of the source's columns (column name -> SQL text of the default).  Not part of "columns" (createSQL
+	// copies name, type, NOT NULL, PRIMARY KEY): the tool only has to cope with them when it describes the table (F17)
+	Defaults map[string]string `json:"defaults,omitempty"`
+}
+
+// defaultsClass names what kind of DEFAULT clauses a source table has, for the input distribution in the evidence
+func defaultsClass(t tableSpec) string {
+	if len(t.Defaults) == 0 {
+		return "source column defaults: none"
+	}
+	for _, d := range t.Defaults {
+		if _, err := strconv.ParseInt(d, 10, 64); err != nil && d != "NULL" {
+			return "source column defaults: some not an integer ('x', 1.5, CURRENT_TIMESTAMP, ..)"
+		}
+	}
+	return "source column defaults: integers / NULL only"
+}
+
+// genDefaults gives some attribute columns of a source table a DEFAULT clause: integers, reals, texts, NULL, keywords and
+// expressions.  The choice is a function of the table (name, column names and types), so it does not disturb the random
+// stream the generators draw from.
+func genDefaults(t tableSpec) map[string]string {
+	h := fnv.New64a()
+	h.Write([]byte(t.Name))
+	for _, c := range t.Cols {
+		h.Write([]byte(c.Name + "|" + c.Type))
+	}
+	r := rand.New(rand.NewSource(int64(h.Sum64())))
+	if r.Intn(3) != 0 {
+		return nil
+	}
+	texts := []string{"'x'", "1.5", "CURRENT_TIMESTAMP", "7", "NULL", "(1+1)", "'it''s'", "-3", "'2020-01-02T03:04:05Z'", "''", "x'00ff'", "1e3", "TRUE", "CURRENT_DATE"}
+	m := map[string]string{}
+	for _, c := range t.Cols {
+		if c.PK != 0 || c.Name == t.GCol || r.Intn(2) == 0 {
+			continue
+		}
+		m[c.Name] = texts[r.Intn(len(texts))]
+	}
+	if len(m) == 0 {
+		return nil
+	}
+	return m
 }
 
 // recordExtent chooses what the source records as the extent of a table whose features have the coordinates pts
@@ -554,6 +598,9 @@ func createSource(path string, tables []tableSpec) (*gs.Handle, error) {
 		defs := make([]string, len(t.Cols))
 		for i, c := range t.Cols {
 			defs[i] = c.ddl()
+			if d, ok := t.Defaults[c.Name]; ok {
+				defs[i] += " DEFAULT " + d
+			}
 		}
 		if _, err = h.Exec(fmt.Sprintf(`CREATE TABLE "%s"(%s)`, t.Name, strings.Join(defs, ", "))); err != nil {
 			return nil, fmt.Errorf("create %s: %w", t.Name, err)
